@@ -33,8 +33,12 @@ def run_one(args):
         p = subprocess.run(["patch", "-p1", "-s", "--no-backup-if-mismatch", "-i", os.path.join(VERIF, patch)], cwd=tmp, stdout=subprocess.PIPE, stderr=subprocess.STDOUT, text=True)
         if p.returncode != 0:
             return {"patch": patch, "expect": expect, "status": "skipped", "why": "patch does not apply to the current tree"}
-        env = dict(os.environ, VERIF_REPO=tmp, VERIF_NO_EVIDENCE="1", VERIF_TIER="quick", VERIF_SELFTEST_CHILD="1")
-        r = subprocess.run([os.path.join(VERIF, "check"), prop, "--tier", "quick"], cwd=VERIF, env=env, stdout=subprocess.PIPE, stderr=subprocess.STDOUT, text=True)
+        env = dict(os.environ, VERIF_REPO=tmp, VERIF_NO_EVIDENCE="1", VERIF_TIER="quick", VERIF_SELFTEST_CHILD="1",
+                   VERIF_FACTS_CACHE=os.path.join(tmp, ".facts-cache"))
+        for attempt in range(2):
+            r = subprocess.run([os.path.join(VERIF, "check"), prop, "--tier", "quick"], cwd=VERIF, env=env, stdout=subprocess.PIPE, stderr=subprocess.STDOUT, text=True)
+            if "fact export failed" not in r.stdout:
+                break   # a transient build failure under load is retried once
         keys = re.findall(r"^  violation (.+)$", r.stdout, re.M)
         broken = re.findall(r"^BROKEN: (.*)", r.stdout, re.M)
         if expect == "SILENT":
@@ -50,5 +54,5 @@ def run(prop):
     exps = expectations(prop)
     if not exps or os.environ.get("VERIF_SELFTEST_CHILD"):
         return []
-    with concurrent.futures.ThreadPoolExecutor(max_workers=8) as ex:
+    with concurrent.futures.ThreadPoolExecutor(max_workers=6) as ex:
         return list(ex.map(run_one, [(prop, p, e) for p, e in exps]))
